@@ -25,8 +25,8 @@ theorem UT.LIST_eq : UT.LIST = TT.LIST := by decide
 
 /-! ## Go slicing -/
 
-theorem sliceFrom_ok (b : Bytes) (k : Nat) (h : k ≤ b.length) : sliceFrom b k = .ok (b.drop k) := by
-  simp [sliceFrom, h]
+theorem ufSliceFrom_ok (b : Bytes) (k : Nat) (h : k ≤ b.length) : ufSliceFrom b k = .ok (b.drop k) := by
+  simp [ufSliceFrom, h]
 
 /-! ## big-endian round trips (bytes → integer → bytes) -/
 
